@@ -7,7 +7,7 @@ VERIF = os.path.dirname(os.path.dirname(os.path.abspath(__file__)))
 
 CLAIMS = {
     "C01": dict(
-        technique="MIR edge-dominance (constraint gates), who-may-call tables, TypeId-slot type agreement, guard-neighbourhood analysis",
+        technique="MIR edge-dominance (constraint gates), who-may-call tables, TypeId-slot type agreement, guard-neighbourhood analysis, finite-ordering evaluation of the constraint predicates (laws), backward slices (locked markers, leg direction)",
         text="Static necessary conditions over all MIR paths of the five crates: every feasibility marker / InsertionSuccess is dominated by the None "
              "edge of the complete goal.evaluate on activity and route level, only confirmed modules insert into tours, constraints read cache and "
              "dimension slots with the type they are written with and every slot they read has a writer, every job/route removal is guarded by the "
@@ -19,7 +19,7 @@ CLAIMS = {
         note="Assumes user relations/initial solutions consistent (documented precondition); CHA call graph; module-level allow tables with reasons.",
         ref="DESIGN.md §5 C01"),
     "C02": dict(
-        technique="job-place effect analysis (removal/arrival pairing and move obligations over merged closures, reasoned tables), must-pass ordering, canonical-expression self-comparison lint, final-report def-use",
+        technique="job-place effect analysis (removal/arrival pairing and move obligations over merged closures, reasoned tables), must-pass ordering, must-derive dataflow (every alternative derives from a source), iterator-adapter type analysis, canonical-expression lints, final-report def-use",
         text="Conservation shape: every function that removes jobs from a job place (required/ignored/unassigned/a tour/the route list) adds to another place "
              "in the same function, a direct callee, or hands them to callers that do; unpaired functions need a reasoned table row; the final report chains "
              "unassigned and required and reports every route; the pragmatic writer writes every route and the unassigned list; functions that move jobs into a "
@@ -47,7 +47,7 @@ CLAIMS = {
         note="Trusted base: rustc borrow checker/aliasing model, std and external crates; CHA for dyn calls; one typestate bit per function.",
         ref="DESIGN.md §5 C04"),
     "C05": dict(
-        technique="MIR dominance + TypeId-slot table + Clean/Dirty typestate over the cache-coherence protocol",
+        technique="MIR dominance + TypeId-slot table + Clean/Dirty typestate over the cache-coherence protocol, canonical-expression recurrences, construction-site def-use (fresh solution state)",
         text="Static necessary conditions of cache coherence over every path of every function: the stale bit is unforgeable and cleared only "
              "after all refreshes; per FeatureState impl every per-route slot is refreshed where stale bits are cleared; no hand-over function "
              "returns a possibly stale route; insert-then-accept pairing; a slot written on some paths only is removed on the others (must-write, presence "
@@ -68,7 +68,7 @@ CLAIMS = {
         note="Shares rules C01-G1/G2/G3/W1/C1/O3/O4/D1, C05-I1/R1-R4, C02-O1.",
         ref="DESIGN.md §5 C06"),
     "C07": dict(
-        technique="MIR loop-guard must-pass analysis (entry + per-iteration), finite-ordering evaluation of termination predicates, poll inventory",
+        technique="MIR loop-guard must-pass analysis (entry + per-iteration), finite-ordering evaluation of termination predicates, poll inventory, must-derive dataflow (complete initial individual), loop/fold element-preservation analysis",
         text="Static loop-guard analysis: in every EvolutionStrategy::run termination and quota are polled before the search of every generation and a "
              "positive poll leaves the loop; MaxGeneration fires iff generation >= limit (evaluated over <,=,>); composite criteria fire on any member; "
              "the insertion loop polls the quota every round and every path to return passes finalize_insertion_ctx (leftovers -> unassigned); the "
@@ -95,7 +95,7 @@ CLAIMS = {
         note="A lexicographic extension of a total order with fixed padding is a total order; f64::total_cmp is total (trusted).",
         ref="DESIGN.md §5 C09"),
     "C10": dict(
-        technique="MIR edge-dominance (validate-first), call-graph reachability of rule functions, code/docs table cross-check, dropped-Result def-use scan",
+        technique="MIR edge-dominance (validate-first), call-graph reachability of rule functions, code/docs table cross-check, dropped-Result def-use scan, accepting-exit classification, confirmed guard rows (edge dominance), short-circuit adapter scan of the aggregator",
         text="Structural clauses: validate()? dominates every reader call in map_to_problem; every validation rule function (by return type) is reachable "
              "from ValidationContext::validate and module validators aggregate with combine_error_results; the code literal of each check_eNNNN equals its "
              "name and the set of codes in the code equals the documented headings; no Result in validation is dropped. Two confirmed guard rows keep input-derived panics outside validation's reach away (approximation only without index locations; windows only for two dates). The error aggregator keeps every error of a rule group (no short-circuit). Not decided: that each predicate "
@@ -103,7 +103,7 @@ CLAIMS = {
         note="Docs headings are taken as the rule table; reader panics on unvalidated fields are listed in DESIGN.md as observations, not decided.",
         ref="DESIGN.md §5 C10"),
     "C11": dict(
-        technique="serde attribute symmetry table from a syn AST scan + JSON-kind distinguishability argument for untagged enums + record-field liveness",
+        technique="serde attribute symmetry table from a syn AST scan + JSON-kind distinguishability argument for untagged enums + record-field liveness + iterator-adapter type analysis of the re-reader walks / id numbering + matcher predicate scan",
         text="Narrow clauses: every type reachable from the Problem/Matrix/Solution documents derives both Serialize and Deserialize, carries no one-sided "
              "attribute, renames agree on both sides, skip_serializing_if is only Option::is_none on Option fields; for every untagged enum no later "
              "variant serialises to JSON an earlier variant accepts; tagged enums have unique tags; every CSV import column is consumed and CSV rows are grouped "
@@ -112,7 +112,7 @@ CLAIMS = {
         note="serde derive semantics for the listed attributes are trusted.",
         ref="DESIGN.md §5 C11"),
     "C12": dict(
-        technique="call-graph reachability of checker rules, breach-class table, dropped-Result scan, constant-feasible CFG reachability of error sites",
+        technique="call-graph reachability of checker rules, breach-class table, dropped-Result scan, constant-feasible CFG reachability of error sites, must-derive dataflow (limit accumulators), finite-ordering evaluation of lookup predicates",
         text="Nothing silently unchecked: every checker rule function is reachable from CheckerContext::check, each documented breach class maps to a wired "
              "leaf rule, groups aggregate all results, no Result in checker code is dropped, every leaf rule keeps reachable error-producing sites, "
              "capacity verdicts never use the partial order of multi-dimensional loads, no checker comparison relates a value to itself. "
@@ -166,14 +166,14 @@ CLAIMS = {
         note="One genuine defect repaired (start node, fix: a2d54db).",
         ref="DESIGN.md §5 C17"),
     "C19": dict(
-        technique="insertion-site key/coordinate source agreement, field-store scan, edge-dominance, flag evaluation by abstract interpretation, phase-rank analysis",
+        technique="insertion-site key/coordinate source agreement, field-store scan, edge-dominance, flag evaluation by abstract interpretation, phase-rank analysis, sign analysis of divisors",
         text="Narrow clauses: the node map is private and every insertion keys a node by its own coordinate; coordinates are rewritten only in the contraction "
              "remap; compaction removes nodes only when four remain, re-trains with is_new_input=false, and Network::update (evaluated over the flag) cannot "
              "reach grow_nodes without new input; population phases only move forward. every re-assignment of an elite's capacity is followed by the truncation, every returned network creates and resizes node storages with config.node_size, compaction shifts each coordinate with its own axis' bounds and step. Every node storage is resized to node_size after the initial balancing; the per-node error never divides by a possibly-zero size (sign analysis). Not decided: finiteness of weights/errors, capacity, lookup, elite bounds.",
         note="Phase ranks are taken from the enum declaration order (re-confirmed on change).",
         ref="DESIGN.md §5 C19"),
     "C18": dict(
-        technique="sign / constant-set abstract interpretation of MIR (inductive field invariants, sampler-argument obligations, reward range) + finite-ordering evaluation",
+        technique="sign / constant-set abstract interpretation of MIR (inductive field invariants, sampler-argument obligations, reward range) + finite-ordering evaluation + canonical-expression formula checks",
         text="Decided for every reward history under real-number semantics (NaN / overflow / underflow not modelled): the SlotMachine learning state keeps shape > 0, "
              "rate > 0 and variance >= 0 — established by every constructor and preserved by every function that writes the fields (inductive sign invariant); "
              "every gamma call gets shape > 0 and scale > 0 and every normal call a std >= 0 with no division by a possibly-zero value on the sampling path; the "
